@@ -341,9 +341,13 @@ def build_val_for_case(c, t=None):
     containers inside the value are ONE shared object"""
     _SHARE[0] = {} if c['x'].get('alias') else None
     try:
-        return build_val(c['c']['val'] if t is None else t)
+        o = build_val(c['c']['val'] if t is None else t)
     finally:
         _SHARE[0] = None
+    if c['x'].get('cycle'):             # the last element / the last value is the container ITSELF (the term holds an empty stand-in of its class)
+        if isinstance(o, list): o[-1] = o
+        elif isinstance(o, dict): o[list(o)[-1]] = o
+    return o
 
 
 def reflect_val(o, t=None):
@@ -705,6 +709,29 @@ def big_cases(rng, n):
         at, _ = canon_ann(at)
         vt, _ = canon_val(vt)
         cases.append(mk_case(at, vt, kind='big-corrupted' if corrupted else 'big-conforming'))
+    return cases
+
+
+def cyclic_cases(rng, n):
+    """containers that contain THEMSELVES (`xs.append(xs)`, `d['self'] = d`) against element types that are plain classes: the inner
+    occurrence is judged by its class alone (a list is no int; it is an object / a list), so the term holds an empty stand-in of
+    that class.  A cycle guard must not turn `is being traversed` into `conforms`."""
+    cases = []
+    elem = [(cls_term(int), lit(1)), (cls_term(str), lit('a')), (cls_term(object), lit(2)), (["bare", "list"], ["coll", IDX[list], []]),
+            (["union", "union", [cls_term(int), cls_term(str)]], lit(3)), (["union", "union", [cls_term(int), ["bare", "list"]]], lit(4)),
+            (["any"], lit(5)), (["bare", "dict"], ["mapping", IDX[dict], []])]
+    for _ in range(n):
+        et, good = rng.choice(elem)
+        sp = rng.choice(['typing', 'pep585'])
+        k = rng.randint(0, 2)
+        if rng.random() < 0.6:
+            at = ["seq", sp, rng.choice(['list', 'sequence', 'iterable', 'mutableSequence']), et]
+            vt = ["coll", IDX[list], [good] * k + [["coll", IDX[list], []]]]
+        else:
+            at = ["map", sp, rng.choice(['dict', 'mapping']), cls_term(str), et]
+            vt = ["mapping", IDX[dict], [[lit('k%d' % i), good] for i in range(k)] + [[lit('self'), ["mapping", IDX[dict], []]]]]
+        at, _ = canon_ann(at)
+        cases.append(mk_case(at, vt, kind='cyclic', cycle=True))
     return cases
 
 
